@@ -27,3 +27,47 @@ package utils
 //@ iface net/http.ResponseWriter.Header
 //@   params self
 //@   ensures result != nil
+
+// ---- ProxyWriter: the forwarder F(w) of C20 ---------------------------------------------------
+
+//@ type ProxyWriter
+//@   immutable w log
+
+//@ func NewProxyWriterWithLogger
+//@   props C20 C05 C18
+//@   ensures fresh_forwarder: result != nil && fresh(result) && result.w == w && result.code == 0 && result.length == 0
+
+//@ func NewProxyWriter
+//@   props C20
+//@   ensures fresh_forwarder: result != nil && fresh(result) && result.w == w && result.code == 0 && result.length == 0
+
+//@ func (*ProxyWriter).StatusCode
+//@   props C20 C18
+//@   ensures implicit_200: result == ite(p.code == 0, 200, p.code)
+
+//@ func (*ProxyWriter).WriteHeader
+//@   props C20
+//@   modifies everything
+//@   ensures forwarded_once: calls(p.w.WriteHeader) == 1 && callarg(p.w.WriteHeader, 0, 0) == code
+//@   at_call p.w.WriteHeader remembered: p.code == code
+
+//@ func (*ProxyWriter).Write
+//@   props C20
+//@   modifies everything
+//@   ensures forwarded_once: calls(p.w.Write) == 1 && callarg(p.w.Write, 0, 0) == buf && result0 == callres(p.w.Write, 0, 0) && result1 == callres(p.w.Write, 0, 1)
+//@   at_call p.w.Write counted: p.length == old(p.length) + len(buf)
+
+//@ func (*ProxyWriter).Header
+//@   props C20
+//@   modifies everything
+//@   ensures same_header: calls(p.w.Header) == 1 && result == callres(p.w.Header, 0, 0)
+
+//@ func (*ProxyWriter).Flush
+//@   props C20
+//@   modifies everything
+//@   ensures flush_forwarded_when_supported: calls(Flush) <= 1
+
+//@ func (*ProxyWriter).Hijack
+//@   props C20
+//@   modifies everything
+//@   ensures hijack_forwarded_or_error: calls(Hijack) == 1 || result2 != nil
